@@ -303,6 +303,8 @@ impl<'c> RegisterAllocator<'c> {
     /// Convert the stored [`SsaCircuit`] into a register-based [`Circuit`] by
     /// allocating [`Reg`]s and converting wires into [`Inst`]ructions.
     fn convert_circuit(mut self) -> Circuit {
+        #[cfg(feature = "verif_hooks")]
+        crate::verif_hooks::yield_point("register::convert");
         // Iterate through circuit again and maintain list of free registers
         // If we use a value and the last use is the current gate idx
         // reuse the register for this instruction. If there are two whose
